@@ -65,7 +65,7 @@ pub fn gen(prop: &str, scen: &str, _k: u64, seed: u64, tier: &str) -> Case {
     case.input = random_input(&mut r_in, len, case.opt.dict);
     case.sched = random_sched(&mut r_s);
     case.rbufs = random_rbufs(&mut r_ops);
-    let writer_role = r_ops.pct(50);
+    let writer_role = r_ops.pct(50) || scen == "mt.determ";
     case.set("role", if writer_role { 0 } else { 1 });
     case.set("stream_kind", r_in.below(6) as i64);
     if writer_role {
